@@ -59,8 +59,15 @@ def _work(args):
         res['status'] = 'out_of_subset'
         res['error'] = str(e)
     except KeyError as e:
-        res['status'] = 'missing'
-        res['error'] = str(e)
+        if getattr(con, 'optional', False) and 'not found' in str(e):
+            res['status'] = 'ok'
+            res['absent'] = True
+            res['obligations'] = [{'id': f'{key}#absent@-', 'func': key, 'kind': 'absent', 'label': '-', 'props': con.all_props(), 'verdict': 'discharged',
+                                   'backend': 'ast', 'time_s': 0.0, 'origin': 'the function is not defined: the generated default applies (assumed stdlib semantics)',
+                                   'path_kind': 'table', 'route': 'complete', 'model': '', 'reason': ''}]
+        else:
+            res['status'] = 'missing'
+            res['error'] = str(e)
     except Exception as e:
         res['status'] = 'error'
         res['error'] = traceback.format_exc()[-3000:]
